@@ -1,4 +1,5 @@
 import NssVerif.Lemmas.Pexit
+import NssVerif.Model.Stage
 
 /-!
 # C05 — Tau exit probability is a faithful, bounded interpolation of the tables
@@ -75,6 +76,19 @@ theorem history_independent (t : PexitTable ℝ) (hist : List (ℝ × ℝ)) (b l
 theorem floor_idempotent (t : PexitTable ℝ) (b le b' le' : ℝ) :
     (pexitCall (pexitCall t b le).1 b' le').1 = (pexitCall t b le).1 := by
   simp only [state_after_call, floorTable_idem]
+
+/-- batch calls leave the same (floored) table as single calls, so a history of *batch* calls of any sizes (empty
+batches and batches that raise included — the floor precedes the interpolation) followed by a query gives the
+value of a fresh object -/
+theorem history_independent_batches (t : PexitTable ℝ) (hist : List (List (Model.Stage.Pv ℝ))) (b le : ℝ) :
+    (pexitCall (hist.foldl (fun s evs => (Model.Stage.pexitBatch s evs).1) t) b le).2 = (pexitCall t b le).2 := by
+  induction hist generalizing t with
+  | nil => rfl
+  | cons evs rest ih =>
+    simp only [List.foldl_cons]
+    rw [ih]
+    show (pexitCall { t with data := floorTable t.data } b le).2 = _
+    exact result_of_floored t b le
 
 /-! ### the value -/
 
